@@ -60,7 +60,6 @@ pub trait Dut {
     fn is_joined(&mut self) -> bool {
         self.fcnt_up().is_some()
     }
-    #[cfg(feature = "hooks")]
     fn snapshot(&mut self) -> Option<crate::snapshot::Snap>;
 }
 
@@ -299,7 +298,6 @@ impl<const P: u8, const G: i8> Dut for AsyncDut<P, G> {
             (n, a, s.devaddr().value())
         })
     }
-    #[cfg(feature = "hooks")]
     fn snapshot(&mut self) -> Option<crate::snapshot::Snap> {
         Some(crate::snapshot::Snap::from_hook(&self.dev.verif_snapshot()))
     }
@@ -402,6 +400,25 @@ impl<const P: u8, const G: i8> NbDut<P, G> {
                 }
                 Ok(R::TimeoutRequest(t)) => {
                     pending_timeout = Some(t);
+                    if stage == NbStage::AwaitTxDone {
+                        // the transmission is over: the application may change the data rate now
+                        let mid = self.env.borrow().txn.nb_set_dr_mid;
+                        if let Some(dr) = mid {
+                            let region = self.env.borrow().cfg.region;
+                            let snap = crate::snapshot::Snap::from_hook(&self.dev.verif_snapshot());
+                            let mut usable = crate::refregion::uplink_drs(region).contains(&dr);
+                            if usable && region.is_fixed() {
+                                if let Some(def) = crate::refregion::dr_def(region, dr) {
+                                    let range = if def.bw == 500 { 64..72 } else { 0..64 };
+                                    usable = range.into_iter().any(|c| snap.mask_bit(c));
+                                }
+                            }
+                            if usable {
+                                self.dev.set_datarate(region::DR::from(dr));
+                                self.env.borrow_mut().push(Ev::Note(format!("application calls set_datarate({dr}) between TX and RX1")));
+                            }
+                        }
+                    }
                     stage = match stage {
                         NbStage::AwaitTxDone => NbStage::WaitRx1Start,
                         NbStage::WaitRx1Start => NbStage::InRx1,
@@ -561,7 +578,6 @@ impl<const P: u8, const G: i8> Dut for NbDut<P, G> {
             (n, a, s.devaddr().value())
         })
     }
-    #[cfg(feature = "hooks")]
     fn snapshot(&mut self) -> Option<crate::snapshot::Snap> {
         Some(crate::snapshot::Snap::from_hook(&self.dev.verif_snapshot()))
     }
